@@ -36,8 +36,21 @@ def gen_case(rnd, cid):
         ra = b.operand(ka, value=va); rb = b.operand(kb, value=vb)
         if ka == "L": b.ins[ra] = b.ins[ra].replace("const", "priv")
         if kb == "L": b.ins[rb] = b.ins[rb].replace("const", "priv")
+        pre = rnd.random()
+        if pre < 0.35:
+            # history before the target: the same operand objects were already used, possibly inside a guarded
+            # region whose guard is false (state an operation may wrongly carry over to the target)
+            g = b.operand("L", value=rnd.choice([0, 0, 1])); b.ins[g] = b.ins[g].replace("const", "priv")
+            inside = rnd.random() < 0.7
+            if inside: b.emit(f"genter r{g}", "N")
+            for _ in range(rnd.randrange(1, 3)):
+                o2 = rnd.choice([op, op, "lt", "and", "rshift", "mul", "eq"])
+                x = rnd.choice([ra, rb]); y = rnd.choice([ra, rb])
+                if o2 == "rshift": y = b.int_lit(1)
+                b.emit(f"bin {o2} r{x} r{y}", "?")
+            if inside: b.emit("gleave", "N")
         rr = b.emit(f"bin {op} r{ra} r{rb}", "?")
-        meta = {"shape": "op", "op": op, "kinds": ka + kb}
+        meta = {"shape": "op", "op": op, "kinds": ka + kb, "history": pre < 0.35}
     elif shape < 0.8:
         op = rnd.choice(["abs", "invert", "neg"])
         ra = b.operand("L", value=rnd.randrange(0 if op == "invert" else -half + 1, half))
@@ -68,6 +81,26 @@ def result_wires(regstr):
     return re.findall(r"([LBX]):-?\d+:([^,;\]\)]*)", regstr)
 
 
+def search_job(job):
+    _, cons, fixed, unknown, secrets, want = job
+    alt = None; nsol = 0; nonbool = None; complete = True
+    try:
+        for sol in solve.solve(cons, fixed, unknown, P, limit=150000):
+            nsol += 1
+            full = dict(fixed); full.update(sol); full["1"] = 1
+            got = [solve.ev(solve.parse_lc(lc), full, P) for _, lc in secrets]
+            if got != want and alt is None:
+                alt = (sol, got)
+            for (k, _), g in zip(secrets, got):
+                if k == "B" and g not in (0, 1) and nonbool is None:
+                    nonbool = (sol, got)
+            if alt and nsol > 50:
+                break
+    except solve.Limit:
+        complete = False
+    return nsol, alt, nonbool, complete
+
+
 def explore(ctx, extended=False, focus=None):
     ex = Exploration()
     ex.exhaustive = False
@@ -79,6 +112,7 @@ def explore(ctx, extended=False, focus=None):
     n = ctx.n(250, 6000) * (4 if extended else 1)
     cases = corpus_cases("C02") + [gen_case(ctx.rnd, f"c02_{i}") for i in range(n)]
     recs = execute_all(cases)
+    jobs = []; jobrecs = []
     for r in recs:
         account(ex, r)
         correspond(ex, r, LEVELS)
@@ -91,34 +125,34 @@ def explore(ctx, extended=False, focus=None):
             continue
         ncons0, npriv0 = (r.nc[t - 1] if t > 0 else (0, 0))
         ncons1, npriv1 = r.nc[t]
-        cons = solve.parse_cons(r.cons[ncons0:ncons1])
+        # operands keep their values: the wires created by input constructors (`mk`) are fixed; EVERY other private
+        # wire (also auxiliary wires of earlier operations) belongs to the prover; all constraints so far must hold
+        cons = solve.parse_cons(r.cons[:ncons1])
         fixed = {f"x{i+1}": v % P for i, v in enumerate(r.pub)}
-        fixed.update({f"w{i+1}": v % P for i, v in enumerate(r.priv[:npriv0])})
-        unknown = [f"w{i+1}" for i in range(npriv0, npriv1)]
+        inputs = set()
+        for k, ins in enumerate(r.case.instrs[:t + 1]):
+            if ins.startswith("mk ") and k < len(r.nc):
+                lo = r.nc[k - 1][1] if k > 0 else 0
+                if r.nc[k][1] > lo:
+                    inputs.add(lo)          # the input wire itself (a boolean input adds no further wire)
+        for i in inputs:
+            fixed[f"w{i+1}"] = r.priv[i] % P
+        unknown = [f"w{i+1}" for i in range(npriv1) if i not in inputs]
         secrets = result_wires(r.regs[t])
         if not secrets:
             continue
         honest = dict(fixed); honest.update({f"w{i+1}": v % P for i, v in enumerate(r.priv)}); honest["1"] = 1
         want = [solve.ev(solve.parse_lc(lc), honest, P) for _, lc in secrets]
-        alt = None; nsol = 0; nonbool = None
-        try:
-            for sol in solve.solve(cons, fixed, unknown, P):
-                nsol += 1
-                full = dict(fixed); full.update(sol); full["1"] = 1
-                got = [solve.ev(solve.parse_lc(lc), full, P) for _, lc in secrets]
-                if got != want and alt is None:
-                    alt = (sol, got)
-                for (k, _), g in zip(secrets, got):
-                    if k == "B" and g not in (0, 1) and nonbool is None:
-                        nonbool = (sol, got)
-                if alt and nsol > 50:
-                    break
-            ex.count("search:complete")
-        except solve.Limit:
-            ex.count("search:limit")
-        ex.distinct.add((r.case.meta["op"], r.case.meta["kinds"], r.case.cfg["bl"], tuple(r.priv[:npriv0]), tuple(r.pub)))
+        jobs.append((len(jobs), cons, fixed, unknown, secrets, want))
+        jobrecs.append((r, t, inputs, want))
+    import multiprocessing as mp
+    with mp.Pool(min(14, max(1, len(jobs)))) as pool:
+        results = pool.map(search_job, jobs, chunksize=4)
+    for (r, t, inputs, want), (nsol, alt, nonbool, complete) in zip(jobrecs, results):
+        ex.count("search:complete" if complete else "search:limit")
+        ex.distinct.add((r.case.meta["op"], r.case.meta["kinds"], r.case.cfg["bl"], tuple(r.priv[i] for i in sorted(inputs)), tuple(r.pub), r.case.meta.get("history", False)))
         sig = instr_sig(r.case, r.regs, t)
-        if nsol == 0:
+        if nsol == 0 and complete:
             ex.violations.append(Violation(dict(sig, dev="honest-witness-unsat"),
                                            f"{r.case.instrs[t]}: no assignment of the new wires satisfies the emitted constraints",
                                            {"case": r.case.line()}))
